@@ -636,3 +636,61 @@ func init() {
 		return nil
 	}, "sort.Slice", "sort.SliceStable")
 }
+
+func init() {
+	// errors.As without reflection: walk the Unwrap chain, assign when the
+	// dynamic type is assignable to the target's element type.
+	reg(func(w *Worker, caller *frame, fn *ssa.Function, a []Value) Value {
+		err, _ := a[0].(IfaceV)
+		tgt, _ := a[1].(IfaceV)
+		if tgt.T == nil {
+			w.rtPanic("errors: target cannot be nil")
+		}
+		tp, ok := tgt.V.(PtrV)
+		if !ok || tp.O == nil {
+			w.rtPanic("errors: target must be a non-nil pointer")
+		}
+		et := deref(tgt.T)
+		var walk func(e IfaceV, depth int) bool
+		walk = func(e IfaceV, depth int) bool {
+			for e.T != nil && depth < 16 {
+				if it, isI := et.Underlying().(*types.Interface); isI {
+					if types.Implements(e.T, it) {
+						w.store(tp.O, e)
+						return true
+					}
+				} else if types.Identical(e.T, et) {
+					w.store(tp.O, e.V)
+					return true
+				}
+				if m := w.lookupMethodNamed(e.T, "As"); m != nil && m.Signature.Params().Len() == 1 {
+					r := w.call(caller, m, []Value{e.V, tgt}, nil)
+					if w.Branch(r.(*term.Term)) {
+						return true
+					}
+				}
+				m := w.lookupMethodNamed(e.T, "Unwrap")
+				if m == nil {
+					return false
+				}
+				switch r := w.call(caller, m, []Value{e.V}, nil).(type) {
+				case IfaceV:
+					e = r
+					depth++
+				case SliceV:
+					for i := 0; i < r.Len; i++ {
+						sub, _ := w.load(w.kid(r.Arr, r.Off+i)).(IfaceV)
+						if sub.T != nil && walk(sub, depth+1) {
+							return true
+						}
+					}
+					return false
+				default:
+					return false
+				}
+			}
+			return false
+		}
+		return w.TF.Bool(walk(err, 0))
+	}, "errors.As")
+}
